@@ -19,4 +19,4 @@ require (
 	golang.org/x/sys v0.33.0 // indirect
 )
 
-replace github.com/semafind/semadb => /tmp/ag/c11/repo
+replace github.com/semafind/semadb => /repo
